@@ -1,6 +1,6 @@
 """C05 -- the exact algorithm returns a global optimum, with or without CPLEX."""
-from .. import grids
-from ..framework import Model
+from .. import grids, ilprun
+from ..framework import Model, Stage
 from . import algo_common as ac
 
 PID = "C05"
@@ -40,8 +40,28 @@ def models(tier):
                   "orders, the objective equals the score read off the cost table, defeat counting decodes")]
 
 
+def _ilp_cases(tier, rng):
+    """models captured on datasets with 2..4 (thorough: 5) elements: structural rows are dataset-independent, the
+    pruning rows depend on the cost table"""
+    out = []
+    sizes = (2, 3, 4) if tier == "quick" else (2, 3, 4, 5)
+    for n in sizes:
+        k = 0
+        while k < (6 if n <= 4 else 2):
+            D = ac.random_dataset(rng, n, 4, nmin=n)
+            if len(grids.universe(D)) != n:
+                continue
+            k += 1
+            s = [ac.P_UNI5, ac.P_IND1, ac.P_PSE5, ac.P_UNI1, ac.P_EXT][k % 5]
+            for src in (("pulp", "cplex_noopt") if k <= 1 else ()) + ("pulp_pruned", "cplex_opt", "optim1"):
+                out.append({"D": D, "sch": list(s), "naming": "ints", "src": src})
+    return out
+
+
 def stages(tier, rng, only=None):
-    out = [ac.stage("grid3x2", PID, lambda: _cases(grids.datasets(3, 2), rng), _nt)]
+    out = [ac.stage("grid3x2", PID, lambda: _cases(grids.datasets(3, 2), rng), _nt),
+           Stage("ilp_rows", "Trace_ILP", ilprun.run_ilp, lambda: _ilp_cases(tier, rng), lambda r: r["n"] >= 3,
+                 ilprun.init, post=ilprun.flatten, chunk=200)]
     if tier == "quick":
         out.append(ac.stage("random", PID, lambda: _cases([ac.random_dataset(rng, 6, 5, nmin=3) for _ in range(150)],
                                                           rng, schemes=SCHEMES + ac.grid_sample(rng, 6)), _nt))
